@@ -1512,6 +1512,23 @@ func TestReplay(t *testing.T) {
 		outerT, curTest = t, "TestRandom"
 		vstat.Replay(t, prop, "TestRandom", run)
 	})
+	t.Run("TestStress", func(t *testing.T) {
+		outerT, curTest = t, "TestStress"
+		vstat.Replay(t, prop, "TestStress", runStress)
+	})
+	t.Run("TestReg", func(t *testing.T) { // cases saved by the hand-written regressions
+		var hdr struct {
+			Test string `json:"test"`
+		}
+		if b, err := os.ReadFile(os.Getenv("VERIF_REPLAY")); err == nil {
+			json.Unmarshal(b, &hdr)
+		}
+		if !strings.HasPrefix(hdr.Test, "TestReg") {
+			t.Skip("not a regression case")
+		}
+		outerT, curTest = t, hdr.Test
+		vstat.Replay(t, prop, hdr.Test, run)
+	})
 }
 
 var _ drpc.Stream = (*fakeStream)(nil)
